@@ -3,7 +3,7 @@ PID = "C03"
 EVS = "VMask,VPriv,VSec,UpdKey,CC".split(",")
 def run(tier, seed):
     ck = vlib.Check(PID, tier, seed, "model_checking")
-    vtmf_common.run_mc(ck, ["MC_VTMF_sigma"], tier)
+    vtmf_common.run_mc(ck, ["MC_VTMF_sigma" if tier == "quick" else "MC_VTMF_sigma_full"], tier)
     def interesting(e):
         if e["e"] in EVS:
             return "%s:%s:%s:%s:%s:%s" % (e["e"], e.get("mut"), e.get("pub"), e.get("mode"), e.get("res"), str(e.get("msg") or e.get("bits"))[:60])
